@@ -19,7 +19,7 @@ pub enum Case {
     /// inserted content == one-shot encode (numeric references for unmappable characters)
     Insert { enc: &'static Encoding, input: Vec<u8>, cuts: Vec<usize>, strings: Vec<(String, CT)> },
     /// <meta charset> switches the encoding once, after the tag
-    Switch { from: &'static Encoding, to_label: String, part1: String, part2: String, late_meta: Option<String>, cuts_frac: Vec<u16>, insert: String },
+    Switch { from: &'static Encoding, to_label: String, part1: String, part2: String, late_meta: Option<String>, cuts_frac: Vec<u16>, insert: String, handlers: u8 },
 }
 
 fn mb_run(t: &mut Tape<'_>, enc: &'static Encoding, target_bytes: usize) -> Vec<u8> {
@@ -113,7 +113,7 @@ pub fn decode(tape: &[u16]) -> Case {
             let late_meta = if t.chance(1, 3) { Some(ENCODINGS[t.below(ENCODINGS.len())].name().to_string()) } else { None };
             let k = t.range(0, 4);
             let cuts_frac = (0..k).map(|_| t.frac()).collect();
-            Case::Switch { from: enc, to_label, part1, part2, late_meta, cuts_frac, insert: t.pick(INSERT_STRS).to_string() }
+            Case::Switch { from: enc, to_label, part1, part2, late_meta, cuts_frac, insert: t.pick(INSERT_STRS).to_string(), handlers: t.below(6) as u8 }
         }
     }
 }
@@ -247,7 +247,8 @@ fn mappable(enc: &'static Encoding, s: &str) -> String {
     s.chars().map(|c| if c.is_ascii() { c } else if enc == encoding_rs::UTF_8 { c } else if p.safe.is_empty() { 'x' } else { p.safe[(c as usize) % p.safe.len()] }).collect()
 }
 
-fn check_switch(from: &'static Encoding, to_label: &str, part1: &str, part2: &str, late_meta: &Option<String>, cuts_frac: &[u16], insert: &str, st: &mut Stats) -> PResult {
+#[allow(clippy::too_many_arguments)]
+fn check_switch(from: &'static Encoding, to_label: &str, part1: &str, part2: &str, late_meta: &Option<String>, cuts_frac: &[u16], insert: &str, handlers: u8, st: &mut Stats) -> PResult {
     let resolve = |l: &str| -> Option<&'static Encoding> { Encoding::for_label_no_replacement(l.as_bytes()).filter(|e| e.is_ascii_compatible()) };
     let first = resolve(to_label);
     let eff1 = first.unwrap_or(from);
@@ -275,7 +276,14 @@ fn check_switch(from: &'static Encoding, to_label: &str, part1: &str, part2: &st
     let eff = to.unwrap_or(from);
     let mut cuts: Vec<usize> = cuts_frac.iter().map(|f| frac_to_pos(*f, input.len())).collect();
     cuts.sort();
-    let mut cfg = all_obs(from);
+    // handler sets: the switch must not depend on something keeping the lexer busy after the tag
+    let (mut cfg, hname) = match handlers {
+        0 | 1 => (all_obs(from), "all_observers"),
+        2 => (Cfg { encoding: from, docs: vec![DocSpec { end: true, ..Default::default() }], ..Cfg::default() }, "document_end_only"),
+        3 => (Cfg { encoding: from, docs: vec![DocSpec { end: true, ..Default::default() }], sels: vec![SelSpec { sel: "p".into(), el: true, text: true, ..Default::default() }], ..Cfg::default() }, "p_element_and_text"),
+        4 => (Cfg { encoding: from, docs: vec![DocSpec { end: true, ..Default::default() }], sels: vec![SelSpec { sel: "meta".into(), el: true, ..Default::default() }], ..Cfg::default() }, "meta_element_only"),
+        _ => (Cfg { encoding: from, docs: vec![DocSpec { end: true, ..Default::default() }], sels: vec![SelSpec { sel: "b[title]".into(), text: true, ..Default::default() }], ..Cfg::default() }, "b_text_only"),
+    };
     cfg.adjust_charset = true;
     cfg.docs[0].ops.push(ScriptOp { kind: Kind::DocEnd, nth: None, every_chunk: false, op: Op::Append(insert.to_string(), CT::Html) });
     let r = run(&split(&input, &cuts), &cfg);
@@ -315,6 +323,7 @@ fn check_switch(from: &'static Encoding, to_label: &str, part1: &str, part2: &st
     let tail = eff.encode(insert).0.into_owned();
     ensure!(r.out.ends_with(&tail), "C13: document-end content inserted after the charset switch is not encoded in {}: want suffix {:?}, output ends {:?}", eff.name(), show(&tail), show(&r.out[r.out.len().saturating_sub(tail.len() + 4)..]));
     st.label_if(switched, "charset_switch");
+    st.label_if(switched, &format!("switch_with_{hname}"));
     st.label_if(to.is_none(), "unsupported_or_non_ascii_compatible_label");
     st.label_if(late_meta.is_some(), "second_meta_ignored");
     if switched {
@@ -355,7 +364,7 @@ impl Prop for C13 {
         }]
     }
     fn rule(&self) -> String {
-        "case over 36 encodings, three kinds. decode: soup in the encoding (incl. characters with ASCII trail bytes), optional 1000-3100-byte multi-byte text run, optional injected malformed bytes, schedule; every text node (chunks concatenated), comment text, tag name, attribute name and value read by handlers == encoding_rs ONE-SHOT decode of the bytes at the reported range. insert: document-end/element insertions of strings with mappable and unmappable characters in both content types == one-shot encode (numeric references), streaming insertion in two pieces == single insertion. switch: text in encoding A + <meta charset=B> + text in B (+ optional later meta): exactly one set_encoding(B) delivered right after the declaring tag's bytes, later strings decoded and later insertions encoded in B, none for unsupported / non-ASCII-compatible / identical labels. non-trivial = a cut inside a multi-byte character, a text node > 1024 bytes, an unmappable insertion or an actual switch".into()
+        "case over 36 encodings, three kinds. decode: soup in the encoding (incl. characters with ASCII trail bytes), optional 1000-3100-byte multi-byte text run, optional injected malformed bytes, schedule; every text node (chunks concatenated), comment text, tag name, attribute name and value read by handlers == encoding_rs ONE-SHOT decode of the bytes at the reported range. insert: document-end/element insertions of strings with mappable and unmappable characters in both content types == one-shot encode (numeric references), streaming insertion in two pieces == single insertion. switch: text in encoding A + <meta charset=B> + text in B (+ optional later meta), under five handler sets (all observers; document-end handler only; a `p` element+text handler; a `meta` element handler only; a `b[title]` text handler only - the parser may or may not stay in lexer mode after the tag): exactly one set_encoding(B) delivered right after the declaring tag's bytes, later strings decoded and later insertions encoded in B, none for unsupported / non-ASCII-compatible / identical labels. non-trivial = a cut inside a multi-byte character, a text node > 1024 bytes, an unmappable insertion or an actual switch".into()
     }
     fn assumptions(&self) -> Vec<String> {
         vec!["encoding_rs one-shot decode_without_bom_handling / encode are the codec oracle (the implementation uses the streaming API in 1 KiB pieces)".into()]
@@ -370,14 +379,14 @@ impl Prop for C13 {
         match decode(tape) {
             Case::Decode { enc, input, cuts } => check_decode(enc, &input, &cuts, st),
             Case::Insert { enc, input, cuts, strings } => check_insert(enc, &input, &cuts, &strings, st),
-            Case::Switch { from, to_label, part1, part2, late_meta, cuts_frac, insert } => check_switch(from, &to_label, &part1, &part2, &late_meta, &cuts_frac, &insert, st),
+            Case::Switch { from, to_label, part1, part2, late_meta, cuts_frac, insert, handlers } => check_switch(from, &to_label, &part1, &part2, &late_meta, &cuts_frac, &insert, handlers, st),
         }
     }
     fn describe(&self, tape: &[u16]) -> Value {
         match decode(tape) {
             Case::Decode { enc, input, cuts } => json!({"kind": "decode", "encoding": enc.name(), "input": show(&input[..input.len().min(300)]), "input_bytes": input, "cuts": cuts}),
             Case::Insert { enc, input, cuts, strings } => json!({"kind": "insert", "encoding": enc.name(), "input": show(&input), "cuts": cuts, "strings": format!("{strings:?}")}),
-            Case::Switch { from, to_label, part1, part2, late_meta, cuts_frac, insert } => json!({"kind": "switch", "from": from.name(), "to": to_label, "part1": part1, "part2": part2, "late_meta": late_meta, "cuts_frac": cuts_frac, "insert": insert}),
+            Case::Switch { from, to_label, part1, part2, late_meta, cuts_frac, insert, handlers } => json!({"kind": "switch", "from": from.name(), "to": to_label, "part1": part1, "part2": part2, "late_meta": late_meta, "cuts_frac": cuts_frac, "insert": insert, "handlers": handlers}),
         }
     }
 }
